@@ -10,6 +10,10 @@ R-C18-3: chooseNumberOfLevels, interpreted from source over a range of (nr, nthe
          count implies coarseningGrid's precondition for every coarsening setup() performs, every smoothing level has
          ntheta % 4 == 0 and nr >= 5, and fewer than two levels is rejected by an exception.
 R-C18-4: the last radius / angle of every generator is assigned from the endpoint itself, not accumulated.
+R-C18-5: the uniform generator interpreted in exact arithmetic with symbolic R0 < Rmax: radii run from exactly R0 to exactly Rmax,
+         increase strictly, every fine radius is the midpoint of its coarse neighbours, divideBy2=k contains divideBy2=k-1 as its
+         every-second-node subgrid, angles are j/ntheta of the literal 2*pi with antipodal partners, nr is odd. (The anisotropic
+         generator orders doubles in std::set and is not interpretable symbolically; its memory safety is R-C18-1.)
 """
 from gmg import conc, grids, ir, report, structq, taint
 from gmg.conc import ConcDomain, TOP
@@ -20,6 +24,84 @@ UNITS = ["src/PolarGrid/polargrid.cpp", "src/PolarGrid/anisotropic_division.cpp"
 GENERATORS = ["PolarGrid::RadialAnisotropicDivision", "PolarGrid::constructRadialDivisions", "PolarGrid::constructAngularDivisions",
               "PolarGrid::divideVector", "PolarGrid::refineGrid", "PolarGrid::initializeDistances", "coarseningGrid",
               "PolarGrid::loadVectorFromFile"]
+
+
+def algebraic_grid(ck, prog, tier):
+    """the uniform generator (constructRadialDivisions with anisotropic factor 0, constructAngularDivisions, refineGrid/divideVector)
+    interpreted in the exact rational-function domain with symbolic R0 < Rmax"""
+    from gmg import dag, opsdom
+    ck.rule("R-C18-5", "uniform generator, exact arithmetic: end points R0/Rmax, strictly increasing, fine nodes are midpoints, nesting under divideBy2, uniform angles ending at 2*pi with antipodal partners", floor=5)
+    R0, R = dag.atom("R0"), dag.atom("Rmax")
+    span = dag.sub(R, R0)
+    TWO_PI = None
+    cache = {}
+
+    def gen(nr_exp, nt_exp, db2):
+        key = (nr_exp, nt_exp, db2)
+        if key in cache:
+            return cache[key]
+        dom = opsdom.OpsDomain(prog, record=False)
+        it = Interp(prog, dom)
+        g = dom.new_object("PolarGrid", None, None)
+        it.call_function(prog.fn("PolarGrid::constructRadialDivisions"), g, [R0, R, nr_exp, dag.atom("refinement_radius"), 0])
+        it.call_function(prog.fn("PolarGrid::constructAngularDivisions"), g, [nt_exp, g.f["nr_"].get()])
+        it.call_function(prog.fn("PolarGrid::refineGrid"), g, [db2])
+        nr, nt = g.f["nr_"].get(), g.f["ntheta_"].get()
+        rad = [dag.lift(g.f["radii_"].get().sym[i]) for i in range(nr)]
+        ang = [dag.lift(g.f["angles_"].get().sym[j]) for j in range(nt + 1)]
+        cache[key] = (nr, nt, rad, ang, dom.oob)
+        return cache[key]
+
+    cases = [(2, -1, 0), (3, 3, 0), (3, -1, 1), (4, 2, 1), (3, 4, 2)] if tier == "quick" else [(a, b, c) for a in (2, 3, 4, 5) for b in (-1, 2, 3, 5) for c in (0, 1, 2)]
+    site = ir.locstr(prog.fn("PolarGrid::constructRadialDivisions"))
+    for (nr_exp, nt_exp, db2) in cases:
+        key = "nr_exp=%d ntheta_exp=%d divideBy2=%d" % (nr_exp, nt_exp, db2)
+        ck.instance("R-C18-5", key)
+        nr, nt, rad, ang, oob = gen(nr_exp, nt_exp, db2)
+        probs = []
+        if oob:
+            probs.append("out-of-range access %s[%s] (length %s) at %s" % oob[0])
+        if rad[0] is not R0 or rad[-1] is not R:
+            probs.append("end points are %s and %s, not exactly R0 and Rmax" % (dag.show(rad[0], 40), dag.show(rad[-1], 40)))
+        if nr % 2 != 1:
+            probs.append("nr = %d is even: the grid cannot be coarsened" % nr)
+        for i in range(nr - 1):
+            ratio = dag.div(dag.sub(rad[i + 1], rad[i]), span)
+            vals = set(p.value(ratio) for p in dag.points())
+            if len(vals) != 1 or list(vals)[0] <= 0:
+                probs.append("radius %d -> %d is not an increasing fixed fraction of Rmax-R0" % (i, i + 1))
+                break
+        for m in range((nr - 1) // 2):
+            if not dag.equal(dag.mul(dag.const(2), rad[2 * m + 1]), dag.add(rad[2 * m], rad[2 * m + 2])):
+                probs.append("fine radius %d is not the midpoint of its coarse neighbours" % (2 * m + 1))
+                break
+        two_pi = ang[-1]
+        if two_pi.op != "c" or abs(float(two_pi.a) - 6.283185307179586) > 1e-12:
+            probs.append("last angle is %s, not the literal 2*pi" % dag.show(two_pi, 40))
+        if not dag.is_zero(ang[0]):
+            probs.append("first angle is not 0")
+        for j in range(nt + 1):
+            if not dag.equal(dag.mul(ang[j], dag.const(nt)), dag.mul(two_pi, dag.const(j))):
+                probs.append("angle %d is not %d/%d of 2*pi" % (j, j, nt))
+                break
+        if nt % 2 == 0:
+            for j in range(nt // 2):
+                if not dag.equal(dag.mul(dag.sub(ang[j + nt // 2], ang[j]), dag.const(2)), two_pi):
+                    probs.append("angle %d has no antipodal partner at index %d" % (j, j + nt // 2))
+                    break
+        else:
+            probs.append("ntheta = %d is odd" % nt)
+        if db2 > 0:
+            nr2, nt2, rad2, ang2, _ = gen(nr_exp, nt_exp, db2 - 1)
+            if nr != 2 * nr2 - 1 or nt != 2 * nt2:
+                probs.append("divideBy2=%d gives %dx%d, one refinement less gives %dx%d" % (db2, nr, nt, nr2, nt2))
+            else:
+                if any(not dag.equal(rad[2 * i], rad2[i]) for i in range(nr2)) or any(not dag.equal(ang[2 * j], ang2[j]) for j in range(nt2 + 1)):
+                    probs.append("the grid of one refinement less is not its every-second-node subgrid")
+        if probs:
+            ck.violation("R-C18-5", "uniform-generator:%s" % probs[0].split(" ")[0], site, "%s: %s" % (key, "; ".join(probs)))
+        else:
+            ck.ok("R-C18-5", key, sample={"parameters": key, "nr": nr, "ntheta": nt, "radius[1]": dag.show(rad[1], 60)})
 
 
 def main(tier):
@@ -183,6 +265,8 @@ def main(tier):
     pinned(f, "angles_", lambda i: i == "ntheta_", lambda r: "3.14159" in r and r.replace(" ", "").startswith("(2*"), "2*pi")
     f = prog.fn("PolarGrid::divideVector")
     pinned(f, "result", lambda i: i.replace(" ", "") == "(resultSize-1)", lambda r: r == "vec.back()", "the last input value")
+    # ---------------- R-C18-5: algebraic facts of the uniform generator (exact rational functions of R0, Rmax)
+    algebraic_grid(ck, prog, tier)
     return ck.finish(
         "Grid generation is examined without running it: (1) a taint analysis over the generator functions marks every integer "
         "that depends on the caller's parameters through a float->int conversion or unchecked arithmetic and requires, at every "
